@@ -386,3 +386,31 @@ package task
 // call of the task (and by concurrently compiling goroutines).
 //@ func resolveMatrixRefs$1
 //@   modifies github.com/go-task/task/v3/internal/templater.*, resolved.om, om_has, om_val, om_len, om_key     [C11,C18]
+
+// ---- C10: the layers of variables are applied in the documented order, later layers overriding earlier ones --
+// layer counts the sources applied so far: 0 environment, 1 special vars, 2 Taskfile env, 3 Taskfile vars,
+// 4 vars of the include statement, 5 vars of the included Taskfile, 6 vars passed in the call, 7 task vars.
+// Every source is merged with Vars.Set (an existing key is overwritten), so the order IS the precedence.
+//@ ghost var layer int scratch
+//@ func (*Compiler).getVariables
+//@   init layer := 0
+//@   site env.GetEnviron#1 requires layer == 0                                                                [C10]
+//@   site env.GetEnviron#1 ghost layer := 1
+//@   site (*Compiler).getSpecialVars#1 requires layer == 1                                                    [C10]
+//@   site (*Compiler).getSpecialVars#1 ghost layer := 2
+//@   site (*Vars).All#1 requires layer == 2 && arg0 == c.TaskfileEnv                                          [C10]
+//@   site (*Vars).All#1 ghost layer := 3
+//@   site (*Vars).All#2 requires layer == 3 && arg0 == c.TaskfileVars                                         [C10]
+//@   site (*Vars).All#2 ghost layer := 4
+//@   site (*Vars).All#3 requires layer == 4 && arg0 == t.IncludeVars                                          [C10]
+//@   site (*Vars).All#3 ghost layer := 5
+//@   site (*Vars).All#4 requires layer == 5 && arg0 == t.IncludedTaskfileVars                                 [C10]
+//@   site (*Vars).All#4 ghost layer := 6
+//@   site (*Vars).All#5 requires layer == 6 && arg0 == call.Vars                                              [C10]
+//@   site (*Vars).All#5 ghost layer := 7
+//@   site (*Vars).All#6 requires layer == 7 && arg0 == t.Vars                                                 [C10]
+//@ func (*Compiler).getSpecialVars
+//@   trusted
+//@   pure allocates
+//@ func (*Compiler).getVariables$1
+//@   pure allocates
